@@ -43,7 +43,7 @@ impl Drop for DropCtr {
     }
 }
 
-fn new_src(id: Id, script: &Script, k: K, sh: Rc<WrapShared>, cb_drop: Rc<Cell<u32>>) -> Src {
+pub fn new_src(id: Id, script: &Script, k: K, sh: Rc<WrapShared>, cb_drop: Rc<Cell<u32>>) -> Src {
     Src {
         id,
         token: None,
@@ -88,7 +88,7 @@ fn make_timer(sim: &Sim, dl: Deadline) -> Timer {
 }
 
 /// Run `f` (a calloop API call) catching panics; a panic is a violation, never a crash.
-fn guarded<T>(sim: &Sim, what: &str, f: impl FnOnce() -> T) -> Option<T> {
+pub fn guarded<T>(sim: &Sim, what: &str, f: impl FnOnce() -> T) -> Option<T> {
     sim.hk.borrow_mut().api_depth += 1;
     let r = catch_unwind(AssertUnwindSafe(f));
     sim.hk.borrow_mut().api_depth -= 1;
@@ -124,7 +124,7 @@ fn mark_excused(sim: &Sim, id: Id) {
 }
 
 /// record the outcome of an insertion
-fn finish_insert(sim: &Sim, id: Id, mut src: Src, res: Result<calloop::RegistrationToken, String>, natural_failure_expected: bool) {
+pub fn finish_insert(sim: &Sim, id: Id, mut src: Src, res: Result<calloop::RegistrationToken, String>, natural_failure_expected: bool) {
     src.exp[0] += 1;
     let fault = std::mem::replace(&mut sim.hk.borrow_mut().fault_window, false);
     match res {
@@ -457,6 +457,13 @@ pub fn exec_op(sim: &Sim, op: &Op, in_cb: bool) {
         Op::Ping(id) => {
             let mut st = sim.st.borrow_mut();
             let Some(s) = st.srcs.get_mut(id) else { return };
+            if let K::Life(l) = &mut s.k {
+                let Some(h) = l.handles.first().cloned() else { return };
+                l.pending = true;
+                drop(st);
+                h.ping();
+                return;
+            }
             let K::Ping(p) = &mut s.k else { return };
             let Some(h) = p.handles.first().cloned() else { return };
             p.pending = true;
